@@ -163,6 +163,71 @@ def build_case(cid, rng, selector, unimock=False, force_async=False, no_send=Fal
     return Case(cid, "\n".join(L + D) + "\n", meta=meta)
 
 
+def hygiene_case(cid, rng):
+    """A leaf trait stamped out by macro_rules!: method parameter names come partly from the invocation and partly from
+    the macro body (same spelling, different hygiene); the provider impl is written by hand outside the macro."""
+    n = rng.randint(2, 4)
+    origins = [rng.choice(["caller", "macro"]) for _ in range(n)]
+    if len(set(origins)) == 1:
+        origins[0] = "caller" if origins[0] == "macro" else "macro"
+    pool = ["a", "b", "inner"]
+    used = {"caller": set(), "macro": set()}
+    names = []
+    for o in origins:
+        nm = rng.choice([x for x in pool + ["c", "d"] if x not in used[o]][:3])
+        used[o].add(nm)
+        names.append(nm)
+    matcher, call_args = ["$tr:ident"], ["Tr"]
+    ps = []
+    for i, (o, nm) in enumerate(zip(origins, names)):
+        if o == "caller":
+            matcher.append("$p%d:ident" % i)
+            call_args.append(nm)
+            ps.append("$p%d" % i)
+        else:
+            ps.append(nm)
+    sel = rng.choice(["", "delegate_by = Self", "delegate_by = ref", "delegate_by = Borrow"])
+    dyn = "ref" in sel or "Borrow" in sel
+    is_async = (not dyn) and rng.random() < 0.4
+    L = ["macro_rules! make_trait {", "    (%s) => {" % ", ".join(matcher),
+         "        #[::entrait::entrait(%s)] /*@inv*/" % sel,
+         "        pub trait $tr%s { %sfn m0(&self, %s) -> ::std::string::String; }" % (": 'static" if dyn else "", "async " if is_async else "", ", ".join("%s: i32" % x for x in ps)),
+         "    };", "}", "make_trait!(%s);" % ", ".join(call_args)]
+    fid = "%s::Prov::m0" % cid
+    hand = ["x%d" % i for i in range(n)]
+    L.append("pub struct Prov { pub name: &'static str }")
+    L.append("impl Tr for Prov { %sfn m0(&self, %s) -> ::std::string::String { ::vrt::enter(\"%s\", ::vrt::tn(self), ::vrt::addr(self), &[%s]); %s::std::format!(\"%s\", %s) } }" % (
+        "async " if is_async else "", ", ".join("%s: i32" % x for x in hand), fid, ", ".join("&%s as &dyn ::core::fmt::Debug" % x for x in hand),
+        "::vrt::yield_once().await; " if is_async else "", "|".join("{}" for _ in hand), ", ".join(hand)))
+    L.append("pub struct NonProv; pub struct AppRef { pub inner: ::std::boxed::Box<dyn Tr + ::core::marker::Send + ::core::marker::Sync> }" if dyn else "pub struct NonProv; pub struct AppRef;")
+    if dyn:
+        L.append("impl ::core::convert::AsRef<dyn Tr> for AppRef { fn as_ref(&self) -> &(dyn Tr + 'static) { &*self.inner } }")
+        L.append("impl ::core::borrow::Borrow<dyn Tr> for AppRef { fn borrow(&self) -> &(dyn Tr + 'static) { &*self.inner } }")
+    vals = ", ".join("%di32" % (101 + i) for i in range(n))
+    w = (lambda c: "::vrt::block_on(%s)" % c) if is_async else (lambda c: c)
+    D = ["pub fn run() {"]
+    if dyn:
+        D.append('    let app = ::entrait::Impl::new(AppRef { inner: ::std::boxed::Box::new(Prov { name: "p" }) });')
+        D.append('    ::vrt::fact("prov_addr", ::vrt::addr(&*app.inner)); ::vrt::fact("prov_tn", ::vrt::tn_of::<Prov>());')
+        direct = "app.inner.m0(%s)" % vals
+    else:
+        D.append('    let app = ::entrait::Impl::new(Prov { name: "p" });')
+        D.append('    ::vrt::fact("prov_addr", ::vrt::addr(&*app)); ::vrt::fact("prov_tn", ::vrt::tn(&*app));')
+        direct = "<Prov as Tr>::m0(&*app, %s)" % vals
+    D.append('    ::vrt::fact("avail_right", ::vrt::implements!(::entrait::Impl<%s>: Tr));' % ("AppRef" if dyn else "Prov"))
+    D.append('    ::vrt::fact("avail_nonprov", ::vrt::implements!(::entrait::Impl<NonProv>: Tr));')
+    D.append('    ::vrt::fact("avail_wrong_selector", ::vrt::implements!(::entrait::Impl<%s>: Tr));' % ("Prov" if dyn else "AppRef"))
+    if dyn:
+        D.append('    ::vrt::fact("avail_plain_provider", ::vrt::implements!(::entrait::Impl<Prov>: Tr));')
+    D.append('    ::vrt::phase("direct:m0"); let r = %s; ::vrt::result(&r); ::vrt::kv("rtn", ::vrt::tn(&r)); ::vrt::record_polls();' % w(direct))
+    D.append('    ::vrt::phase("impl:m0"); let r = %s; ::vrt::result(&r); ::vrt::kv("rtn", ::vrt::tn(&r)); ::vrt::record_polls();' % w("app.m0(%s)" % vals))
+    D.append("}")
+    meta = {"selector": "hygiene:" + (sel or "default"), "dyn": dyn, "notsync": False, "nontrivial": True, "generic": False,
+            "calls": [{"m": "m0", "fn": fid, "args": [str(101 + i) for i in range(n)], "async": is_async}],
+            "methods": ["macro_rules m0 names=%s origins=%s" % (names, origins)], "opts": [sel], "async_trait": None, "async_methods": [], "no_send": False}
+    return Case(cid, "\n".join(L + D) + "\n", meta=meta)
+
+
 def check_case(c, rep):
     m = c.meta
     if c.removed is not None:
@@ -231,6 +296,9 @@ def run(tier, seed):
     rng = core.rng_for(PROP, seed)
     cases = []
     for i in range(n):
+        if rng.random() < 0.1:
+            cases.append(hygiene_case("c06_%04d" % i, rng))
+            continue
         sel = rng.choice(["default", "default", "Self", "ref", "ref", "Borrow"])
         cases.append(build_case("c06_%04d" % i, rng, sel))
     st = selftest.case("selftest_c06")
